@@ -7,7 +7,7 @@ import sys
 
 from .common import seed_from_env
 from .nscheck import run_property
-from .nsruns import std_spec
+from .nsruns import std_spec, ins_spec
 
 PROP = "C12"
 
@@ -47,9 +47,36 @@ def corpus(tier, seed):
     return specs
 
 
+def ins_corpus(tier, seed):
+    s = seed * 1000 + 250
+    specs = [
+        ins_spec("gauss2", s + 1, 100, kills=[250]),
+        ins_spec("gauss2", s + 2, 100, kills=[350, 150], save_log_q=True),
+        ins_spec("rosen2", s + 3, 100, kills=[450, 100, 100], draw_iid_live=False),
+        ins_spec("gauss4", s + 4, 100, kills=[300], strict_threshold=True, resume_after_done=1),
+        ins_spec("gauss2", s + 5, 100, kills=[500], reparameterisation=None, checkpoint_interval=2),
+        ins_spec("rosen2", s + 6, 60, kills=[200, 200], draw_constant=False, save_log_q=True),
+    ]
+    if tier == "thorough":
+        import random
+
+        rng = random.Random(seed + 1)
+        k = 7
+        for model in ("gauss2", "rosen2", "gauss4"):
+            for iid in (True, False):
+                for slq in (True, False):
+                    for rep in range(3):
+                        kills = [rng.randrange(150, 700) for _ in range(rng.randrange(1, 4))]
+                        specs.append(ins_spec(model, s + k, 100, kills=kills, draw_iid_live=iid, save_log_q=slq,
+                                              max_iteration=8))
+                        k += 1
+    return specs
+
+
 def main(tier: str) -> int:
     seed = seed_from_env()
-    return run_property(PROP, tier, corpus(tier, seed), crash_is_violation=True, also=("C01", "C05"),
+    return run_property(PROP, tier, corpus(tier, seed), crash_is_violation=True, also=("C01", "C05", "C03"),
+                        ins_specs=ins_corpus(tier, seed),
                         note="Every history is killed (os._exit at a chosen likelihood call) 1-4 times and resumed in a "
                              "fresh process; at every resume the deep digest of the restored sampler must equal the "
                              "digest taken when the checkpoint was written; evaluation counter and sampling time must "
